@@ -7,14 +7,18 @@ n = miss = 0
 for d in sorted(glob.glob(os.path.join(root, 'seeded/*/meta.json'))):
     m = json.load(open(d)); i = os.path.basename(os.path.dirname(d)); n += 1
     chk = m.get('check', {}); first = chk.get('first_run')
-    if not chk.get('detected'):
+    tie = any('no-failing-input-found' in l for l in chk.get('last_lines', []))
+    kind = 'detected as a broken correspondence (VIOLATION ... no-failing-input-found)' if tie else 'detected (concrete failing input in the replay)'
+    if not chk.get('detected') and chk.get('other'):
+        how = 'not by this property\'s check: ' + chk['other']; miss += 1
+    elif not chk.get('detected'):
         how = 'MISSED (open)'; miss += 1
     elif first and not first.get('detected', True):
-        how = 'missed at first; ' + chk.get('note', '')
+        how = 'missed at first; ' + chk.get('note', '') + ('; ' + kind if tie else '')
     elif first and first.get('how'):
         how = 'first run: ' + first['how'] + '; ' + chk.get('note', '')
     else:
-        how = 'detected (concrete failing input in the replay)'
+        how = kind
     rows.append('| %s | %s | %s | %s |' % (i, ', '.join(m.get('files', [])), m.get('what', '')[:110].replace('|', '/').replace('\n', ' '), how.replace('|', '/')))
 p = os.path.join(root, 'DESIGN.md'); s = open(p).read()
 tbl = '<!-- SEEDED-TABLE-BEGIN -->\n%d changes, %d currently missed.\n\n%s\n<!-- SEEDED-TABLE-END -->' % (n, miss, '\n'.join(rows))
